@@ -11,7 +11,7 @@ MANIFEST_ENTRY = dict(
     technique="TLC model checking of step programs (spec/MCWallet.tla Inv_Crash) + hook-driven crash/fault enumeration on the real code + TLC trace validation (spec/TraceWallet.tla TCrash)",
     note=WALLET_NOTE + " LMDB's own commit atomicity is trusted: a crash is injected immediately before a commit / file create, never inside one; torn stored-transaction files are covered by every truncation length of the file.")
 
-PARAMS = dict(quick_cfgs=["MC_C06_quick.cfg"], thorough_cfgs=["MC_C06.cfg", "MC_C06_b.cfg"], quick_n=36, thorough_n=400,
+PARAMS = dict(quick_cfgs=["MC_C06_quick.cfg"], thorough_cfgs=["MC_C06.cfg", "MC_C06_b.cfg"], quick_n=40, thorough_n=400,
               setup=STD_SETUP, assumptions=WALLET_ASSUME)
 CRASH_OPS = {"init_send", "lock", "receive", "finalize", "cancel", "refresh", "issue_invoice", "process_invoice"}
 
@@ -30,7 +30,23 @@ def run(tier, replay_path, t0):
         cfgs = p["quick_cfgs"] if tier == "quick" else p["thorough_cfgs"]
         stats, behs, cex = mc_and_gen(cfgs, tier, 1500)
         all_b = [b for b in behs if b and b[-1].get("ev") in CRASH_OPS]
-        chosen, ncover = select_behaviours(all_b, p["quick_n"] if tier == "quick" else p["thorough_n"], rnd)
+        # stratify by the operation under test (kind, stage, late, wallet): every kind of operation
+        # must be crash-enumerated, in several different pre-states each
+        groups = {}
+        for b in all_b:
+            e = b[-1]
+            g = (e.get("ev"), e.get("stage", ""), bool(e.get("late")), e.get("w", ""))
+            groups.setdefault(g, []).append(b)
+        want = p["quick_n"] if tier == "quick" else p["thorough_n"]
+        per = max(2, want // max(1, len(groups)))
+        chosen = []
+        for g in sorted(groups, key=str):
+            c, _ = select_behaviours(groups[g], per, rnd)
+            chosen += c
+        if len(chosen) < want:
+            rest = [b for b in all_b if b not in chosen]
+            c, _ = select_behaviours(rest, want - len(chosen), rnd)
+            chosen += c
         cexb = []
         for c in cex[:20]:
             h = c.get("hist") or []
